@@ -23,10 +23,10 @@ CHECK_DEADLOCK FALSE
 
 # (spec module, mode, extra args, shards, events)
 PLANS = {
-    "C06": dict(quick=[("SearchTrace", "sweep", ["-k", "80"], 11, 2600), ("SearchTrace", "ucigo", [], 3, 120), ("SearchTrace", "collide", [], 2, 1500)],
-                thorough=[("SearchTrace", "sweep", ["-k", "600"], 11, 30000), ("SearchTrace", "ucigo", [], 3, 1500), ("SearchTrace", "collide", [], 2, 15000)]),
-    "C07": dict(quick=[("SearchTrace", "pv", ["-depth", "8"], 12, 1300), ("SearchTrace", "sweep", ["-k", "40"], 2, 1500), ("SearchTrace", "collide", [], 2, 1500)],
-                thorough=[("SearchTrace", "pv", ["-depth", "9"], 12, 14000), ("SearchTrace", "sweep", ["-k", "200"], 2, 15000), ("SearchTrace", "collide", [], 2, 15000)]),
+    "C06": dict(quick=[("SearchTrace", "sweep", ["-k", "80"], 10, 2600), ("SearchTrace", "ucigo", [], 3, 120), ("SearchTrace", "collide", [], 3, 2500)],
+                thorough=[("SearchTrace", "sweep", ["-k", "600"], 10, 30000), ("SearchTrace", "ucigo", [], 3, 1500), ("SearchTrace", "collide", [], 3, 15000)]),
+    "C07": dict(quick=[("SearchTrace", "pv", ["-depth", "8"], 10, 1300), ("SearchTrace", "sweep", ["-k", "40"], 2, 1500), ("SearchTrace", "collide", [], 4, 2500)],
+                thorough=[("SearchTrace", "pv", ["-depth", "9"], 10, 14000), ("SearchTrace", "sweep", ["-k", "200"], 2, 15000), ("SearchTrace", "collide", [], 4, 15000)]),
     "C08": dict(quick=[("ReproTrace", "games", ["-plies", "20"], 10, 700), ("ReproTrace", "ucirepro", [], 2, 60), ("SearchTrace", "sweep", ["-k", "120"], 2, 2000), ("SearchTrace", "limits", [], 2, 1500)],
                 thorough=[("ReproTrace", "games", ["-plies", "60"], 10, 8000), ("ReproTrace", "ucirepro", [], 2, 600), ("SearchTrace", "sweep", ["-k", "1500"], 2, 25000), ("SearchTrace", "limits", [], 2, 20000)]),
 }
